@@ -698,6 +698,7 @@ package fpgo
 //@   ensures keys: forallv(y, has(r0, y) == exists(i, 0, len(list), grouper(list[i]) == y))
 //@   ensures groups-hold-their-own: forallv(y, has(r0, y) ==> forall(j, 0, len(r0[y]), grouper(r0[y][j]) == y && exists(i, 0, len(list), list[i] == r0[y][j])))
 //@   ensures every-item-grouped: forall(i, 0, len(list), 0 <= pos[i] && pos[i] < len(r0[grouper(list[i])]) && r0[grouper(list[i])][pos[i]] == list[i])
+//@   ensures in-list-order: forall2(a, 0, len(list), b, 0, len(list), a < b && grouper(list[a]) == grouper(list[b]) ==> pos[a] < pos[b])
 //@   ensures unchanged: unchanged(list)
 //@ func GroupBy loop 0
 //@   invariant fresh: fresh(result) && forallv(x, has(result, x) ==> fresh(result[x]))
@@ -705,6 +706,8 @@ package fpgo
 //@   invariant keys: forallv(y, has(result, y) == exists(i, 0, _i, grouper(list[i]) == y))
 //@   invariant groups-hold-their-own: forallv(y, has(result, y) ==> forall(j, 0, len(result[y]), grouper(result[y][j]) == y && exists(i, 0, _i, list[i] == result[y][j])))
 //@   ghostset pos = store(pos, _i, len(result[id])-1)
+//@   invariant in-list-order: forall2(a, 0, _i, b, 0, _i, a < b && grouper(list[a]) == grouper(list[b]) ==> pos[a] < pos[b])
+//@   invariant last-is-latest: forall(a, 0, _i, pos[a] < len(result[grouper(list[a])]))
 //@   invariant every-item-grouped: forall(i, 0, _i, 0 <= pos[i] && pos[i] < len(result[grouper(list[i])]) && result[grouper(list[i])][pos[i]] == list[i])
 
 // ===================================================================================================
